@@ -21,9 +21,11 @@ CONFIG = {
              'sampled pairs, random/PCT) and free-running: with a logical clock, a call invoked after the enclosing subbuild/build_file call returned must '
              'raise RuntimeError; a call that completed normally must be part of the record (mutating the path only '
              'it observed forces re-execution of the owner in the next build) and a call that was told "already '
-             'finished" must not be (that mutation forces nothing); evaluations = late calls + schedules judged; '
+             'finished" must not be (that mutation forces nothing); in (a) every owner first makes every query itself and in '
+             'half of (b) the owner makes the straggler\'s very call before forking, so late calls REPEAT observations the '
+             'same instance already recorded (a memo of recorded observations must not bypass the fence); evaluations = late calls + schedules judged; '
              'distinct_nontrivial = distinct (owner kind, method, outcome, recorded?) x switch sequences'),
-    'gates': ['complex_stragglers', 'complex_straggler_after_close', 'late_calls', 'root_late_calls', 'straggler_schedules', 'straggler_ok_recorded',
+    'gates': ['primed_straggler_runs', 'complex_stragglers', 'complex_straggler_after_close', 'late_calls', 'root_late_calls', 'straggler_schedules', 'straggler_ok_recorded',
               'straggler_rejected', 'straggler_single_layers', 'next_build_probes'],
 }
 
@@ -34,8 +36,14 @@ QUERY_METHODS = ['is_file', 'exists', 'get_size', 'read_text', 'read_binary', 'd
 
 # ------------------------------------------------------------------ (a) sequential
 def seq_program(owner_raises, from_inside):
-    S = [['x', 'stash', 's'], ['q', 'exists', 'in0', 'M']] + ([['raise', 'S']] if owner_raises else [])
-    F = [['x', 'stash', 'f'], ['write', '']] + ([['raise', 'F']] if owner_raises else [])
+    # every owner first makes every query itself (both comparison modes for reads), so that each late
+    # call REPEATS a call the same builder instance has already executed and recorded (a memo of
+    # "already recorded" observations must not bypass the fence)
+    own = [['q', k, 'in0', m] for k in ('exists', 'is_file', 'is_dir', 'get_size', 'list_dir', 'walk')
+           for m in ('M',)] + [['q', k, 'in0', m] for k in ('read_text', 'read_binary', 'declare_read')
+                               for m in ('M', 'H')]
+    S = [['x', 'stash', 's']] + own + ([['raise', 'S']] if owner_raises else [])
+    F = [['x', 'stash', 'f']] + own + [['write', '']] + ([['raise', 'F']] if owner_raises else [])
     lates = []
     for m in METHODS:
         for who in ('s', 'f'):
@@ -52,7 +60,7 @@ def seq_program(owner_raises, from_inside):
         mid = [['sb', 'H', {'catch': True}]]
     else:
         mid = lates
-    root = [['x', 'stash', 'root'], ['sb', 'S', {'catch': True}], ['bf', 'o/x', 'F', {'catch': True}]] + mid + after
+    root = [['x', 'stash', 'root']] + own + [['sb', 'S', {'catch': True}], ['bf', 'o/x', 'F', {'catch': True}]] + mid + after
     return {'funcs': funcs, 'roots': [root]}
 
 
@@ -120,6 +128,11 @@ def straggler_program(owner, method):
     if method in ('build_file', 'subbuild'):
         target = 'late/out'
     fork = ['x', 'fork_late', method, target, 't1']
+    prime = owner.endswith('+p')
+    if prime:
+        # the owner makes the very same call itself before the straggler does: the straggler's call
+        # repeats an observation this builder instance has already executed and recorded
+        owner = owner[:-2]
     funcs = {}
     if owner == 'sb':
         funcs['S'] = {'kind': 'sb', 'idx': 1, 'body': [['q', 'exists', 'in0', 'M'], fork]}
@@ -139,11 +152,22 @@ def straggler_program(owner, method):
         root = [['bf', 'ov/x', 'G', {'catch': True}], ['q', 'is_file', 'in0', 'M'], fork]
         if owner == 'root-raises':
             root.append(['raise', 'root'])
+    if prime and method in QUERY_METHODS:
+        pre = [['q', method, target, m] for m in (('M', 'H') if method in ('read_text', 'read_binary',
+                                                                            'declare_read') else ('M',))]
+        for body in [f['body'] for f in funcs.values()] + [root]:
+            if fork in body:
+                i = body.index(fork)
+                body[i:i] = pre
     return {'funcs': funcs, 'roots': [root]}, target
 
 
 def run_straggler(sh, rng, owner, method, strategy_list, free=False):
     program, target = straggler_program(owner, method)
+    prime = owner.endswith('+p')
+    if prime:
+        owner = owner[:-2]
+        sh.count('primed_straggler_runs')
     with Scratch('g') as sc:
         w = World(sc)
         w.ext_write('in0', b'input zero')
@@ -182,7 +206,7 @@ def run_straggler(sh, rng, owner, method, strategy_list, free=False):
                     if s.deadlock:
                         sh.violation('deadlock|straggler|%s|%s' % (owner, method), {'info': s.deadlock_info}, case)
                         continue
-                tag = '%s|%s' % (owner, method)
+                tag = '%s|%s%s' % (owner, method, '|repeats-own-call' if prime else '')
                 bad = False
                 complex_straggler = method in ('build_file', 'subbuild')
                 for d in sr.divs:
@@ -245,11 +269,11 @@ def run_straggler(sh, rng, owner, method, strategy_list, free=False):
                     sh.violation('call_after_close_not_rejected|' + tag, {'straggler': st}, case)
                     continue
                 if s is not None and s.preemptions:
-                    sh.nt((owner, method, out[0], s.signature()))
+                    sh.nt((owner, method, prime, out[0], s.signature()))
                 else:
-                    sh.nt((owner, method, out[0]))
+                    sh.nt((owner, method, prime, out[0]))
                 # rule 3/4: is the observation part of the record?
-                if owner in ('sb', 'bf') and (free or rng.random() < 0.5):
+                if owner in ('sb', 'bf') and not prime and (free or rng.random() < 0.5):
                     if target == 'probe':
                         w.ext_delete('probe')
                     else:
@@ -280,6 +304,7 @@ def run_shard(sh):
     if sh.idx % 4 == 0:
         run_sequential(sh, rng)
     combos = [(o, m) for o in ('sb', 'bf', 'sb-raises', 'root') for m in QUERY_METHODS] + \
+        [(o + '+p', m) for o in ('sb', 'bf', 'sb-raises', 'root') for m in QUERY_METHODS] + \
         [(o, m) for o in ('root-raises', 'root-commits', 'sb', 'bf') for m in ('build_file', 'subbuild', 'is_file')] * 2
     rng.shuffle(combos)
     i = 0
